@@ -265,8 +265,11 @@ def rule_b(repo, chk):
             chk.ob('b', d.ref, 'the disarming reduce_time_left(0) is inside the same critical section', _under(m, 'self._lock'),
                    loc(d, m.ast), discr='disarm-locked')
     # after the loop the publication is withdrawn
+    saved = {src(n.ast.targets[0]) for n in g.nodes if n.kind == 'stmt' and isinstance(n.ast, ast.Assign) and len(n.ast.targets) == 1 and isinstance(n.ast.targets[0], ast.Name)
+             and src(n.ast.value) == 'self._currently_handling' and all(Q.reaches(n, p_) and not Q.reaches(p_, n) for p_ in pubs)}
+    # … to None, or to what was published before this (nested) dispatch began
     clears = [n for n in g.nodes if n.kind == 'stmt' and 'self' in pat.stores_attr(n.ast, '_currently_handling') and
-              pat.is_const(n.ast.value, None)]
+              (pat.is_const(n.ast.value, None) or src(n.ast.value) in saved)]
     chk.ob('b', d.ref, 'the dispatcher withdraws the publication after the handlers ran', bool(clears), loc(d, d.node),
            discr='withdraw', nontrivial=False)
 
